@@ -312,6 +312,15 @@ func (w *World) Run(done func() bool, maxSteps int, horizon time.Duration) bool 
 		if w.OnAction != nil {
 			w.OnAction(&acts[k])
 		}
+		if w.Log.KeepAll {
+			// the options of the step (not part of the digest): a divergence is classified by them
+			opts := make([]string, len(acts))
+			for i, a := range acts {
+				opts[i] = a.Label
+			}
+			w.Log.Flush()
+			w.Log.All = append(w.Log.All, "      options: "+strings.Join(opts, " | "))
+		}
 		w.logf("#%d [%d] %s", w.Steps, len(acts), acts[k].Label)
 		if w.Log.verbose {
 			for i, a := range acts {
